@@ -27,10 +27,18 @@ macro_rules! run {
     }};
 }
 
+/// verdict of `==` between the results of one parser on two inputs (the previous corpus line and this one)
+macro_rules! eqv {
+    ($h:expr, $a:expr, $b:expr, $($p:expr),+) => {{
+        $( fnv(&mut $h, if $p($a) == $p($b) { "eq" } else { "ne" }); )+
+    }};
+}
+
 fn main() {
     let path = std::env::args().nth(1).expect("corpus file");
     let text = std::fs::read_to_string(path).expect("read corpus");
     let mut out = String::new();
+    let mut prev: Vec<u8> = Vec::new();
     for (idx, line) in text.lines().enumerate() {
         let b = unhex(line.trim());
         let i = b.as_slice();
@@ -113,6 +121,14 @@ fn main() {
             let s8 = format!("{:?}", d.parse_record(rec(c)));
             fnv(&mut h, &format!("{} {}", s8, d.defrag_in_progress()));
         }
+        // what `==` says about the values decoded from the previous input and from this one (the corpus has runs of near-duplicates)
+        {
+            let p = prev.as_slice();
+            eqv!(h, p, i, parse_tls_plaintext, parse_tls_raw_record, parse_tls_message_handshake, parse_tls_handshake_client_hello, parse_tls_handshake_msg_server_hello,
+                parse_tls_handshake_msg_certificate, parse_tls_handshake_certificaterequest, parse_tls_extension, parse_tls_extensions, parse_dtls_plaintext_record,
+                parse_dtls_message_handshake, parse_ct_signed_certificate_timestamp_list, parse_dh_params, parse_ecdh_params, parse_digitally_signed);
+        }
+        prev = b.clone();
         out.push_str(&format!("{} {} {:016x}\n", idx, ok, h));
     }
     // fixed probes, independent of the corpus: public limits, and long streams that only large inputs reach
